@@ -16,8 +16,20 @@ class NoFormatFrameData(IFLR):
         super().__init__()
 
         self.no_format_object = no_format_object
+        self.data = data
+
+    @property
+    def data(self) -> Union[str, bytes]:
+        """Data (payload) of this record."""
+
+        return self._data
+
+    @data.setter
+    def data(self, data: Union[str, bytes, bytearray]) -> None:
+        """Set the data (payload) of this record."""
+
         # (a bytearray is the caller's buffer, which may be re-used once it has been handed over: keep its content)
-        self.data = bytes(data) if isinstance(data, bytearray) else data
+        self._data = bytes(data) if isinstance(data, bytearray) else data
 
     def _make_body_bytes(self) -> bytes:
         """Create bytes representing the body of the object."""
